@@ -445,6 +445,8 @@ class Interp:
         return V.eq_b(self.to_z(a), self.to_z(b))
 
     def contains(self, c, x):
+        if isinstance(c, ConcreteIter):
+            c = LTuple(list(c.items))
         if isinstance(c, C) and isinstance(x, C):
             try:
                 return x.v in c.v
@@ -1223,6 +1225,14 @@ class Interp:
             if cf is None:
                 raise PyRaise("TypeError", msg="object is not callable")
             return self.call_function(cf, [f] + args, kwargs)
+        if isinstance(f, Z) and z3.is_app(f.t) and f.t.decl().name() == "VType" and len(args) == 1 and not kwargs:
+            # type(x)(items) with x a list or a tuple (the only symbolic type objects valida calls)
+            tid = f.t.arg(0)
+            k = self.path.choose([tid == V.T_LIST, tid == V.T_TUPLE, z3.Not(z3.Or(tid == V.T_LIST, tid == V.T_TUPLE))])
+            if k == 2:
+                raise Unsupported("call of a symbolic type object other than list / tuple")
+            from .builtins_model import call_builtin
+            return call_builtin(self, list if k == 0 else tuple, args, kwargs)
         if isinstance(f, Z) and getattr(self, "frame_only", False) and not z3.is_app_of(f.t, z3.Z3_OP_DT_CONSTRUCTOR):
             self.assumptions_used.add("call of a value of unknown kind (class object / callable): result unknown, no effect on "
                                       "pre-existing program objects")
